@@ -149,7 +149,17 @@ func (c *ctx) callsMatching(rel string, n ast.Node, suffixes ...string) []string
 		nm := exprName(ce.Fun)
 		for _, s := range suffixes {
 			if strings.HasSuffix(nm, s) {
-				out = append(out, c.exprSrc(rel, ce))
+				hasLit := false
+				for _, a := range ce.Args {
+					if _, ok := a.(*ast.FuncLit); ok {
+						hasLit = true
+					}
+				}
+				if hasLit {
+					out = append(out, nm+"(.. func ..)")
+				} else {
+					out = append(out, c.exprSrc(rel, ce))
+				}
 				break
 			}
 		}
